@@ -373,7 +373,7 @@ pub open spec fn bta_method(d: instruction::IncreaseLiquidityByTokenAmountsV2) -
     ensures r == (if existing_amount > new_amount { ((existing_amount - new_amount) as u64, false) } else { ((new_amount - existing_amount) as u64, true) }),
 //@ end
 /// the cost of the new range plus the transfer fee the owner pays on top must not exceed the caller's maximum
-//@ fn pinocchio/instructions/reposition_liquidity_v2.rs assert_new_range_token_increase_under_max -> r tags=C08
+//@ fn pinocchio/instructions/reposition_liquidity_v2.rs assert_new_range_token_increase_under_max -> r tags=C08,C16
     ensures r is Ok <==> new_range_amount as int + transfer_fee as int <= token_max as int,
 //@ rewrite /pinocchio_log::log!\([^;]*\);/ => //
 //@ end
